@@ -252,13 +252,23 @@ theorem copy_carries (c : Ctx) (db : Db) (src dst : Bytes) (e : Entry)
     (h : srcLookup c db src = some e) (hd : srcLookup c db dst = none) :
     ((cmdCopy c db src dst false).db.raw dst).map (fun x => (x.val, x.exp)) = some (e.val, e.exp) ∧
     (cmdCopy c db src dst false).reply = .int 1 := by
+  have hne : src ≠ dst := by
+    intro heq; subst heq; rw [h] at hd; cases hd
+  have hb : (src == dst) = false := by simpa using hne
   unfold cmdCopy
-  simp [h, hd, R.ok, Db.raw]
+  simp [hb, h, hd, R.ok, Db.raw]
 
 theorem copy_no_replace_refused (c : Ctx) (db : Db) (src dst : Bytes) (e e' : Entry)
+    (hne : src ≠ dst)
     (h : srcLookup c db src = some e) (hd : srcLookup c db dst = some e') :
     cmdCopy c db src dst false = R.ok db (.int 0) := by
-  unfold cmdCopy; simp [h, hd]
+  have hb : (src == dst) = false := by simpa using hne
+  unfold cmdCopy; simp [hb, h, hd]
+
+/-- COPY of a key onto itself is refused (as Redis does) and changes nothing -/
+theorem copy_same_key_refused (c : Ctx) (db : Db) (k : Bytes) (b : Bool) :
+    (cmdCopy c db k k b).db = db ∧ (cmdCopy c db k k b).reply.isError = true := by
+  unfold cmdCopy; simp [R.ok, Value.isError]
 
 /-! ### glob matching (`redisGlob`) -/
 
